@@ -133,6 +133,16 @@ pub fn nest_real(entries: &[(String, InEntry)], table: &str, through_zip: bool) 
     })
 }
 
+/// the InnerClasses entry an applying row asks for
+fn nest_entry(r: &Row, ren: &dyn Fn(&str) -> String) -> InnerClass {
+    InnerClass {
+        inner: JS::new(&ren(&r.class)),
+        outer: if r.kind() == Kind::Inner { Some(JS::new(&ren(&r.encl))) } else { None },
+        name: if r.kind() == Kind::Anonymous { None } else { Some(JS::new(strip_digits(&r.inner))) },
+        flags: r.access,
+    }
+}
+
 /// The expected class for `class` (parsed input model): references renamed, nest attributes added when its row applies.
 pub fn expected_class(input: &Class, exp: &JarExpectation) -> (Class, u64) {
     let mut c = input.clone();
@@ -146,13 +156,7 @@ pub fn expected_class(input: &Class, exp: &JarExpectation) -> (Class, u64) {
         if r.kind() != Kind::Inner {
             c.enclosing_method = Some(EnclosingMethod { class: JS::new(&ren(&r.encl)), method: r.method.as_ref().map(|(n, d)| (JS::new(n), JS::new(&maps::desc::map_desc(d, &ren)))) });
         }
-        let ic = InnerClass {
-            inner: JS::new(&ren(&r.class)),
-            outer: if r.kind() == Kind::Inner { Some(JS::new(&ren(&r.encl))) } else { None },
-            name: if r.kind() == Kind::Anonymous { None } else { Some(JS::new(strip_digits(&r.inner))) },
-            flags: r.access,
-        };
-        c.inner_classes.get_or_insert_with(Vec::new).push(ic);
+        c.inner_classes.get_or_insert_with(Vec::new).push(nest_entry(r, &ren));
     }
     (c, hits)
 }
@@ -218,6 +222,23 @@ pub fn judge_jar(rep: &mut Report, inputs: &[(String, Class)], others: &[(String
         let (mut want, hits) = expected_class(model, exp);
         rep.add("jar.references_rewritten_expected", hits);
         canon(&mut want); canon(&mut obs);
+        // An entry the class carried about itself before it was nested (same inner class, other outer / name / flags) is stale once the
+        // nest's own entry is recorded. "Records each in an InnerClasses entry" is met with it kept (the repository) and with it replaced.
+        if want != obs {
+            let me = want.this_class.clone();
+            let own = want.inner_classes.as_ref().map_or(0, |v| v.iter().filter(|ic| ic.inner == me).count());
+            if own >= 2 {
+                let mut alt = want.clone();
+                // the nest's entry is the one pushed last by expected_class; after canon() it is found again by comparing with the observation
+                let changing: BTreeMap<&str, &str> = exp.names.iter().filter(|(a, b)| a != b).map(|(a, b)| (a.as_str(), b.as_str())).collect();
+                let ren = |s: &str| changing.get(s).map(|x| x.to_string()).unwrap_or_else(|| s.to_string());
+                if let Some(mine) = exp.applying.iter().find(|r| &r.class == old).map(|r| nest_entry(r, &ren)) {
+                    // only the nest's own entry may remain of the entries about this class
+                    if let Some(av) = &mut alt.inner_classes { av.retain(|ic| ic.inner != me || *ic == mine); }
+                    if alt == obs { rep.count("jar.stale_self_entry_replaced (accepted)"); want = alt; }
+                }
+            }
+        }
         if want != obs {
             ok = false;
             for d in diff::diff(&want, &obs, 10) {
